@@ -38,7 +38,9 @@ CHECKS['C05'] = dict(
          'to a state without successor other than "iterator closed, helpers exited", that the first failure is delivered once '
          'after all earlier outputs, and (FairSpec) that every iteration ends.  The real code is run under detsched for every '
          'stop/failure position of a scenario grid x many schedules; a hang is reported exactly (no runnable thread, no timer), '
-         'and every completed execution is validated by TLC against the trace specs (NoLeak, EndOK on each state).',
+         'and every completed execution is validated by TLC against the trace specs (NoLeak, EndOK on each state).  Composed '
+         'pipelines and the SyncIter / AsyncIter adapters are validated against spec/PipeOutcome.tla (what the consumer observes: '
+         'elements in order, the right end, no helper thread of any stage left at close).',
     design_ref='DESIGN.md section 6 C05', note=TB)
 CHECKS['C16'] = dict(
     technique='TLA+ spec FifoStream with Mode=async checked by TLC against the same invariants as Mode=sync; TLC trace '
@@ -149,7 +151,8 @@ CHECKS['C11'] = dict(
          'cycles.  The repaired design satisfies AllOrNothing, ExitComplete, no deadlock and Completes; each as-found flag is '
          'refuted.  Real servers over process servlets are entered, used (ok / failing / timed-out call, abandoned stream) and '
          'left twice with a failing worker at every position; leftovers (processes, threads) and exit are observed, validated by '
-         'TLC against the spec of the code as it is; an exit hang is a 30 s bound confirmed in a fresh process.  One open '
+         'TLC against the spec of the code as it is; an exit hang is a 30 s bound confirmed in a fresh process.  Every fourth '
+         'scenario runs on AsyncServer, each cycle under an event loop of its own (same server object).  One open '
          'finding (D11b) is reported as KNOWN-FINDING.',
     design_ref='DESIGN.md section 6 C11', note='TLC; real OS schedules (not controlled); 64 KiB pipe assumed when scaling sizes; '
     'thread-only servlet trees are covered for start/stop by the C02/C04/C06 conformance runs (every run ends with Exit, leftover = 0)')
